@@ -100,3 +100,19 @@ func OpDeq(o *Out, e *TypeEntry, a, b reflect.Value, fl, fr Form, same bool, opt
 	vb := o.DeclareVal(e, btok)
 	o.Op("D " + e.Tid + " " + string(fl) + " " + string(fr) + " " + va + " " + vb + " | " + b01(same) + " | " + opts.toks() + " | " + oab + " " + oba + " " + mut)
 }
+
+// OpDeq2 emits one `D2` record: DeepEqual across two (built-in) types, both orders.
+func OpDeq2(o *Out, ea, eb *TypeEntry, a, b reflect.Value, fl, fr Form) {
+	atok, btok := Ser(a), Ser(b)
+	la, ra := MakeArg(ea.Type, DeepCopy(a), fl)
+	lb, rb := MakeArg(eb.Type, DeepCopy(b), fr)
+	oab := callDeq(ea.Ins, la, lb, nil)
+	oba := callDeq(ea.Ins, lb, la, nil)
+	mut := "0"
+	if Ser(ra()) != atok || Ser(rb()) != btok {
+		mut = "1"
+	}
+	va := o.DeclareVal(ea, atok)
+	vb := o.DeclareVal(eb, btok)
+	o.Op("D2 " + ea.Tid + " " + eb.Tid + " " + string(fl) + " " + string(fr) + " " + va + " " + vb + " | " + oab + " " + oba + " " + mut)
+}
